@@ -51,6 +51,10 @@ def make(shape: Dict[str, Any]) -> Any:
             svc.host_ttl = svc.other_ttl = reg_ttl
         for n in taken:
             zc.cache.async_add_records([Spec('PTR', T1, alias=n).make(4500, t0 - 10, False)])
+        for n in shape.get('expired_taken', []):
+            # an expired, not yet purged pointer: it is no conflict by itself, and a fresh copy arriving later
+            # refreshes it in place (no "new record" notification wakes the waiting registration)
+            zc.cache.async_add_records([Spec('PTR', T1, alias=n).make(1, t0 - 4000, False)])
         task = loop.create_task(zc.async_register_service(info, reg_ttl, allow))
         arrival: Optional[Any] = None
         effective_conflict = False
@@ -108,9 +112,16 @@ def make(shape: Dict[str, Any]) -> Any:
         assert final_name is not None
         ctx.check(info.name == final_name, f'registered as {info.name}, expected the first free name {final_name}')
         ctx.check([i.name for i in zc.registry.async_get_service_infos()] == [final_name], 'registry does not hold exactly the registered name')
-        # ---- probes: the last three are for the final name, 175 ms apart, starting at `restart`
-        want_probe_times = [restart, restart + CHECK, restart + 2 * CHECK]
+        # ---- probes: the last three are for the final name, 175 ms apart.  After a rename they restart when the
+        #      conflict is noticed: at its arrival when the waiting coroutine is woken (a new record), or at the next
+        #      scheduled check when it is not (a cached copy refreshed in place)
         final_probes = [p for p in probes if p.out.authorities and p.out.authorities[0].alias == final_name]
+        if detected and allow and NAME.lower() not in names_taken:
+            next_check = t0 + CHECK if arrival < t0 + CHECK else t0 + 2 * CHECK
+            if ctx.check(len(final_probes) >= 1, 'no probe for the new name'):
+                restart = final_probes[0].t
+                ctx.check(restart == arrival or restart == next_check, 'probing for the new name did not restart when the conflict was noticed')
+        want_probe_times = [restart, restart + CHECK, restart + 2 * CHECK]
         ctx.check([p.t for p in final_probes] == want_probe_times, f'probes for the final name not at start, +{CHECK}, +{2 * CHECK} ms')
         for p in probes:
             o = p.out
@@ -123,7 +134,7 @@ def make(shape: Dict[str, Any]) -> Any:
         if detected:
             for p in probes:
                 if p.out.authorities and p.out.authorities[0].alias == NAME:
-                    ctx.check(p.t < restart or NAME.lower() not in names_taken and p.t <= arrival, 'the conflicting name was probed for after the conflict was known')
+                    ctx.check(p.t <= restart, 'the conflicting name was probed for after the conflict was known')
         else:
             ctx.check(len(probes) == 3, f'{len(probes)} probes sent for an uncontested name')
         # ---- announcements
@@ -169,6 +180,8 @@ QUICK = {
     'conflict-before-rename': sh(taken=[NAME], allow_name_change=True),
     'chain-rename': sh(taken=[NAME, 'Alpha-2._http._tcp.local.'], allow_name_change=True),
     'unrelated-during': sh(incoming='unrelated'),
+    'conflict-during-refreshes-expired-entry': sh(incoming='conflict', expired_taken=[NAME]),
+    'conflict-during-refreshes-expired-entry-rename': sh(incoming='conflict', expired_taken=[NAME], allow_name_change=True),
 }
 THOROUGH = {
     'plain-two-v4': sh(addresses='two-v4'),
